@@ -62,6 +62,8 @@ func c11Menu() []tokSlot {
 	for _, c := range []rune{'+', 'a', '{', 'é', 'ü'} {
 		m = append(m, tokSlot{Kind: "lit", Char: c}, tokSlot{Kind: "litprec", Char: c}, tokSlot{Kind: "lituse", Char: c})
 	}
+	// literals that are declared but used in no rule
+	m = append(m, tokSlot{Kind: "litunused", Char: '!'}, tokSlot{Kind: "litprecunused", Char: '~'})
 	// a literal that is a blank
 	m = append(m, tokSlot{Kind: "lit", Char: ' '}, tokSlot{Kind: "lituse", Char: ' '})
 	return m
@@ -82,7 +84,7 @@ func (c *c11Case) valid() bool {
 				return false
 			}
 			nums[n] = true
-		case "lit", "litprec", "lituse":
+		case "lit", "litprec", "lituse", "litunused", "litprecunused":
 			if chars[s.Char] {
 				return false
 			}
@@ -157,6 +159,15 @@ func (c *c11Case) spec() (*gram.Spec, map[string]int, []string) {
 		case "lituse":
 			name = lit
 			want[name] = int(sl.Char)
+		case "litunused", "litprecunused":
+			// declared (by %token / by a precedence line) but used in no rule: a token all the same
+			if sl.Kind == "litunused" {
+				s.Tokens = append(s.Tokens, gram.TokDecl{Name: lit})
+			} else {
+				s.Prec = append(s.Prec, gram.PrecLevel{Assoc: "left", Toks: []string{lit}})
+			}
+			want[lit] = int(sl.Char)
+			continue
 		}
 		order = append(order, name)
 		rule.R = append(rule.R, name)
@@ -312,7 +323,14 @@ func c11Eval(w *Worker, c *c11Case, withCompile bool) bool {
 				return false
 			}
 		}
-		for _, name := range order {
+		// every token of the mix: the ones in the rule, then the declared-but-unused ones
+		all := append([]string(nil), order...)
+		for _, sl := range c.Slots {
+			if sl.Kind == "litunused" || sl.Kind == "litprecunused" {
+				all = append(all, "'"+string(sl.Char)+"'")
+			}
+		}
+		for _, name := range all {
 			got, ok := codes[name]
 			if !ok {
 				bad("token-missing", "token "+name+" is not a terminal of the grammar yaccgo built")
@@ -323,8 +341,8 @@ func c11Eval(w *Worker, c *c11Case, withCompile bool) bool {
 				return false
 			}
 		}
-		if len(codes) != len(order) {
-			bad("extra-token", fmt.Sprintf("yaccgo has %d terminals, the specification %d", len(codes), len(order)))
+		if len(codes) != len(all) {
+			bad("extra-token", fmt.Sprintf("yaccgo has %d terminals, the specification %d", len(codes), len(all)))
 			return false
 		}
 	}
